@@ -121,7 +121,12 @@ def build(seq, names=NAMES, probe_kinds=None):
         elif ev == "tag":
             out.append(["struct {n} {{ int m; }};", "struct {n};", "enum {n} {{ B{f} }};", "union {n} *u{f};"][v % 4].format(n=n, f=f))
         elif ev == "member":
-            out.append(["struct S{f} {{ int {n}; }};", "struct S{f} {{ int *{n}, k; }};", "union W{f} {{ int {n} : 3; }};", "struct S{f} {{ struct {{ int {n}; }} in; }};"][v % 4].format(n=n, f=f))
+            tds = [nm for nm in names if lookup(nm) == "typedef"]
+            if tds and v % 3 == 2:
+                # 'T : 3;' - an unnamed bit-field of a typedef'd type: T is a type name directly followed by ':'
+                out.append("struct S%d { %s : 3; int %s; %s\n: 0; };" % (f, tds[0], n, tds[-1]))
+            else:
+                out.append(["struct S{f} {{ int {n}; }};", "struct S{f} {{ int *{n}, k; }};", "union W{f} {{ int {n} : 3; }};", "struct S{f} {{ struct {{ int {n}; }} in; }};"][v % 4].format(n=n, f=f))
         elif ev == "proto":
             if vis == "typedef" and v % 5 == 3:
                 raise Quarantined("decl.paren_typedef_name_parameter(F9a)")
